@@ -293,11 +293,13 @@ class BaseEngine(abc.ABC):
                         f"Register mismatch: program {len(self.run_progs)}, '{p.name}'."
                     )
 
-                # Copy the latest measured values in the RegRefs of p.
-                # We cannot copy from prev directly because it could be used in more than one
-                # engine.
-                for k, v in enumerate(self.samples):
-                    p.reg_refs[k].val = v
+                # Copy the latest measured values in the RegRefs of p. They are taken mode by mode
+                # from the RegRefs of the previous segment, which hold the outcomes of its own
+                # measurements and those handed over to it (self.samples is indexed by shot, not
+                # by mode, and only covers the last segment).
+                for k, r in prev.reg_refs.items():
+                    if r.val is not None and k in p.reg_refs:
+                        p.reg_refs[k].val = r.val
 
             # bind free parameters to their values
             p.bind_params(args)
